@@ -14,7 +14,10 @@ RULE = ("(1) pure codecs through verif wrappers: Message.WriteTo, decodeMessage 
         "{max-msg 1,5,16,64,1MiB} x {max-body 0..5MiB} with batches at the limits, zero-size and oversize bodies, tampered count/size fields, truncation, trailing bytes; "
         "bodies: sizes 0/1/25/26/27, 2-63, 65-564, 4KiB+-1, 16KiB+-1; contents random, zeros, 0xff, newlines, CRLF, frame-header-like, command-like, ASCII; "
         "timestamps 0/-1/min/max int64/now/negative/random; attempts 0/1/255/256/65535/random. "
-        "(2) HTTP /pub, text /mpub, binary /mpub (Content-Length and chunked) against live daemons with default and tiny limits, observed through /stats and by consuming the channel. "
+        "(2) HTTP /pub, text /mpub, binary /mpub (Content-Length and chunked) against live daemons with default and tiny limits (max-msg 16 / max-body 60, every message through the disk queue or through a memory queue), observed through /stats and by consuming the channel; "
+        "the HTTP boundary matrix (httpedge), every cell on every run: daemons {16/60 mem-queue 0, 16/60 mem-queue 100, 100/420 mem-queue 100} x {/pub, text /mpub, binary /mpub} x {Content-Length, chunked in one / 1-byte / 7-byte / max-msg-size chunks} x "
+        "{a message of max-msg-2..+2 bytes and 2*max+3 (and 0, 1, 10*max+7 for /pub), alone, between valid messages, with and without the trailing newline; a request body of max-body-2..+2, 2*max+5, 4*max+1 bytes made of valid messages; nothing but newlines at the body limit; "
+        "the count bound of a binary batch -1/0/+1; a valid batch followed by trailing bytes below, at and across the body limit}, plus /pub at max-1..max+2 on a 4096/16384 daemon (thorough: all its cells): 200 = exactly what the body spells out was delivered byte for byte, anything else = nothing delivered. "
         "(3) live paths on fresh daemons: TCP PUB/MPUB/DPUB + HTTP pub(+defer)/text mpub/binary mpub, 1-3 channels, mem-queue-size 0/1/2/10000, 1-3 deliveries per message (REQ, immediate or deferred; in some cases the first requeue is the in-flight timeout, msg_timeout 1 s), "
         "restart on the same data path, small max-bytes-per-file (file rolls), producers and consumers over a seeded walk of {plain,TLS} x {none,snappy,deflate1..9} x output_buffer_size{-1,64,16384,65536} x output_buffer_timeout{-1,default,25,1000}, "
         "other traffic interleaved on consumer connections; large bodies (4KiB+-1 .. 1MiB) compared by the harness (digest cases). "
@@ -68,5 +71,6 @@ def drivers():
             n, nh, nl, nb, big, nt, nc, ng = 220 * scale, 70 * scale, 26 * scale, 3, 8, 2, 6 * scale, 6 * scale
         else:
             n, nh, nl, nb, big, nt, nc, ng = 3000 * scale, 800 * scale, 400 * scale, 12, 40, 20, 90 * scale, 90 * scale
-        return ["-n", str(n), "-http", str(nh), "-live", str(nl), "-livebig", str(nb), "-livetmo", str(nt), "-liveconc", str(nc), "-livegate", str(ng), "-big", str(big), "-seed", str(seed)]
+        return ["-n", str(n), "-http", str(nh), "-live", str(nl), "-livebig", str(nb), "-livetmo", str(nt), "-liveconc", str(nc), "-livegate", str(ng), "-big", str(big),
+                "-httpedge", "1" if tier == "quick" else "2", "-seed", str(seed)]
     return [{"driver": "wiredrive", "args": args, "replay_args": lambda tier: []}]
